@@ -431,11 +431,16 @@ func (gb *gcpBalancer) getSubConnRoundRobin(ctx context.Context) *subConnRef {
 func (gb *gcpBalancer) bindSubConn(bindKey string, sc balancer.SubConn) {
 	gb.mu.Lock()
 	defer gb.mu.Unlock()
+	scRef, found := gb.scRefs[sc]
+	if !found {
+		// The SubConn is gone (e.g. shut down) by the time the call completed.
+		return
+	}
 	_, ok := gb.affinityMap[bindKey]
 	if !ok {
 		gb.affinityMap[bindKey] = sc
 	}
-	gb.scRefs[sc].affinityIncr()
+	scRef.affinityIncr()
 }
 
 // unbindSubConn removes the existing binding associated with the key.
@@ -444,7 +449,9 @@ func (gb *gcpBalancer) unbindSubConn(boundKey string) {
 	defer gb.mu.Unlock()
 	boundSC, ok := gb.affinityMap[boundKey]
 	if ok {
-		gb.scRefs[boundSC].affinityDecr()
+		if scRef, found := gb.scRefs[boundSC]; found {
+			scRef.affinityDecr()
+		}
 		delete(gb.affinityMap, boundKey)
 	}
 }
